@@ -15,7 +15,7 @@
 //!         @d) for the next firing of the yield point before upgrade / before recv / before the
 //!         entry check / inside Tracker::drop of a top-level C.
 //! Ops that refer to something absent are no-ops and are not logged.
-use crate::c13::{Chan, KeyedTransport};
+use crate::c13::{Chan, HKey, KeyedTransport};
 use crate::exec::{coq_list, Case};
 use crate::rng::Rng;
 use futures::{channel::mpsc, Stream};
@@ -299,7 +299,7 @@ fn do_op(w: &W, f: &F, op: &Op, ctx: Ctx) {
             match r {
                 Poll::Ready(Some(ch)) => {
                     let tc = ch
-                        .downcast_ref::<tarpc::server::limits::channels_per_key::TrackedChannel<Chan, u32>>()
+                        .downcast_ref::<tarpc::server::limits::channels_per_key::TrackedChannel<Chan, HKey>>()
                         .expect("tracked channel");
                     let k = tc.get_ref().get_ref().key;
                     let ser = tc.get_ref().get_ref().serial;
@@ -324,7 +324,7 @@ fn do_op(w: &W, f: &F, op: &Op, ctx: Ctx) {
 pub fn run_impl(sc: &Script) -> (Vec<(String, Vec<String>, u8)>, Vec<String>) {
     let (tx, rx) = mpsc::unbounded::<Chan>();
     let drops: Rc<RefCell<Vec<(usize, u32)>>> = Rc::new(RefCell::new(vec![]));
-    let filter = rx.max_channels_per_key(sc.n, |c: &Chan| c.get_ref().key);
+    let filter = rx.max_channels_per_key(sc.n, |c: &Chan| HKey(c.get_ref().key));
     let filt: Filt = Box::pin(futures::StreamExt::map(filter, |c| Box::new(c) as Box<dyn std::any::Any>));
     let f: F = Rc::new(RefCell::new(filt));
     let w: W = Rc::new(RefCell::new(World {
@@ -392,7 +392,7 @@ fn gen_simple(rng: &mut Rng, nkeys: u32, polls: u32, allow_poll: bool) -> Op {
 /// drops / arrivals at the yield points of the following polls and inside `Tracker::drop`.
 pub fn gen(rng: &mut Rng) -> Script {
     let n = rng.range(1, 3) as u32;
-    let nkeys = rng.range(1, 2) as u32;
+    let nkeys = rng.range(1, 3) as u32;
     let len = rng.range(4, 30) as usize;
     let mut ops = vec![];
     let mut polls = 0u32;
